@@ -35,6 +35,13 @@ CLAIMED['C12'] = ('other', 'bounded symbolic execution with reward parameters as
 CLAIMED['C13'] = ('other', 'bounded symbolic execution of each of the 8 reset functions with symbolic parameters and every rng draw a symbolic variable: on every path the call raises ValueError or returns a state satisfying the well-formedness and inventory oracle of the property; valid shipped-style parameter combinations must produce a state on some path (vacuity guard)',
                   'trusts z3, the proxy layer, the SymRng contract stub; shapes/counts beyond the bounds (shipped 9x9..13x13 rooms) are outside', 'DESIGN.md §5 C13')
 
+CLAIMED['C05'] = ('other', 'bounded symbolic execution of the four observation functions on worlds of distinct token cells whose opacity is a symbolic boolean: for every pose, view area and occluder layout within the bounds z3 decides on every path that each observation cell is Hidden or is (by identity) the world cell given by an explicit rotation formula and lies in the grid, that shape, anchor, heading and held item are as documented, and that the fully transparent view shows every in-grid cell',
+                  'trusts z3, the proxy layer, the Tok stub, SymRng; view areas are enumerated (they are handed to numpy), opacity and draws are symbolic; sizes beyond the bounds are outside', 'DESIGN.md §5 C05')
+CLAIMED['C06'] = ('other', 'bounded symbolic execution with symbolic opacity per cell (all occluder layouts at once): non-interference by self-composition (replacing any hidden or out-of-view world cell by a fresh token with independent opacity yields the identical observation), own cell visible, connectivity of the visible set through transparent visible cells, monotonicity under clearing a visible opaque cell, and for the stochastic variant (every draw a symbolic real in [0,1)) containment in the deterministic ray-traced view and certainty for fully lit cells',
+                  'trusts z3, the proxy layer, the Tok stub, SymRng; the ray geometry itself is executed concretely (float trigonometry, see C19)', 'DESIGN.md §5 C06')
+CLAIMED['C07'] = ('other', 'bounded symbolic execution: the observation of the world turned by every quarter turn (grid and pose together, the turned world built from explicit index formulas) is cell-by-cell identical to the original observation, for the three deterministic observation functions, every pose, view area and occluder layout within the bounds (opacity symbolic)',
+                  'trusts z3, the proxy layer, the Tok stub; sizes beyond the bounds are outside', 'DESIGN.md §5 C07')
+
 NOT_APPLICABLE = {
     'C19': 'floating-point trigonometric ray kernel (sin/cos/arctan2 via libm/numpy, round-to-nearest of accumulated float steps): no SMT theory for the transcendental part, the only FP-expressible lemma timed out (300 s) on z3 and cvc5, and the remaining inputs form a small finite domain a solver would merely enumerate; see DESIGN.md §5 C19',
 }
